@@ -36,7 +36,7 @@ TABLE_OF_VIEW_ATTR = {"_id_dict", "_id_attr", "_bi_id_dict", "_bi_id_attr"}
 def run(ctx):
     repo = ctx.repo
     res = Result(PROP)
-    res.rules = ["V-LIVE", "V-REBIND", "V-NOCACHE", "V-ORDER", "V-IDS", "V-FILTER", "V-FWD", "V-UNION", "V-ZERO", "V-SIDE"]
+    res.rules = ["V-LIVE", "V-REBIND", "V-NOCACHE", "V-ORDER", "V-IDS", "V-DOMAIN", "V-FILTER", "V-FWD", "V-UNION", "V-ZERO", "V-SIDE"]
     res.explanation = (
         "Structural rules over the view and stat classes and a package-wide who-may-rebind scan (effect analysis): views "
         "alias the live tables, nothing is cached, ordered outputs are tagged with the provenance of their iteration "
@@ -54,6 +54,7 @@ def run(ctx):
     check_order(repo, res, idview, stats)
     check_filter(repo, res, idview)
     check_ids_owner(repo, res)
+    check_selection_domain(repo, res, idview)
     # V-FWD: the public methods of the view classes read every parameter and forward keywords under their own name
     # (sources/targets are aliases of tail/head; a dropped `e=` or `dtype=` changes what is returned)
     from .c05_edits import check_params
@@ -151,6 +152,59 @@ def check_ids_owner(repo, res):
     if found_owner_writes < 3:
         raise AnalysisError(f"V-IDS: expected the assignments of _ids in IDView.__init__ and from_view, found {found_owner_writes} (extractor does not recognise the code)")
     res.inst("V-IDS", f"{n} bindings of _ids / view constructions examined; only IDView.__init__ and from_view bind _ids", True)
+
+
+def check_selection_domain(repo, res, idview):
+    """V-DOMAIN: the selections that are defined by a property of each ID's neighbour set (lookup: "the IDs whose
+    neighbours are exactly this set"; duplicates) examine every ID of the table.  A candidate list derived from the sought
+    set itself (the IDs adjacent to one of its elements) is empty when the set is empty - lookup([]) then misses the
+    isolated nodes / empty edges, and disagrees with isolates() / empty()."""
+    n = 0
+    for mname in ("lookup", "duplicates"):
+        m = idview.methods.get(mname)
+        if m is None:
+            continue
+        selfn = m.params[0]
+        bodies = [m]
+        # private helpers of the class that compute the bunch
+        for c in ast.walk(m.node):
+            if isinstance(c, ast.Call) and isinstance(c.func, ast.Attribute) and isinstance(c.func.value, ast.Name) and c.func.value.id == selfn and c.func.attr.startswith("_") and c.func.attr in idview.methods:
+                bodies.append(idview.methods[c.func.attr])
+        full = False
+        narrowed = None
+        for b in bodies:
+            s0 = b.params[0]
+            local = {}
+            for st in ast.walk(b.node):
+                if isinstance(st, ast.Assign) and len(st.targets) == 1 and isinstance(st.targets[0], ast.Name):
+                    local.setdefault(st.targets[0].id, []).append(st.value)
+
+            def is_table(e, depth=0):
+                if isinstance(e, ast.Call) and isinstance(e.func, ast.Attribute) and e.func.attr in ("items", "keys", "values") and not e.args:
+                    return is_table(e.func.value, depth)
+                if isinstance(e, ast.Attribute) and isinstance(e.value, ast.Name) and e.value.id == s0 and e.attr in ("_id_dict", "_ids"):
+                    return True
+                if isinstance(e, ast.Name) and e.id == s0:
+                    return True
+                if isinstance(e, ast.Name) and depth < 3 and len(local.get(e.id, [])) == 1:
+                    return is_table(local[e.id][0], depth + 1)
+                if isinstance(e, ast.Call) and getattr(e.func, "id", None) in ("list", "enumerate", "iter", "tuple") and e.args:
+                    return is_table(e.args[0], depth)
+                return False
+
+            for it in [x.iter for x in ast.walk(b.node) if isinstance(x, (ast.For, ast.comprehension))]:
+                if is_table(it):
+                    full = True
+                elif any(isinstance(x, ast.Attribute) and x.attr in ("_bi_id_dict",) for x in ast.walk(it)) or (isinstance(it, ast.Name) and any(any(isinstance(x, ast.Attribute) and x.attr == "_bi_id_dict" for x in ast.walk(v)) for v in local.get(it.id, []))):
+                    narrowed = it
+        n += 1
+        ok = full and narrowed is None
+        res.inst("V-DOMAIN", f"IDView.{mname} examines every ID of the table", ok)
+        if not ok:
+            what = f"iterates `{unparse(narrowed, 40)}`, candidates taken from the neighbours of the argument" if narrowed is not None else "does not iterate the ID table"
+            res.add(mk_finding(PROP, "V-DOMAIN", m, narrowed if narrowed is not None else m.node, f"IDView.{mname} {what}: IDs that are adjacent to none of the given elements are never examined, so for an empty argument the IDs without neighbours (isolated nodes, empty edges) are missed although their neighbour set equals the argument", role=mname))
+    if n < 1:
+        raise AnalysisError("IDView.lookup / duplicates not found (anchor vanished)")
 
 
 def sum_of_sides_sites(fn_node):
